@@ -44,6 +44,48 @@ def run(report, db, tier):
     from .c11 import no_drop
     no_drop(report, db, S, M, rule_id='R13.5')
     call_packet(report, db, S)
+    R7 = report.rule('R13.7', 'only listeners signal "ignore": no built-in '
+                     'reaction raises IgnorePacket (it would stop the '
+                     'ordinary listeners of a packet nobody asked to ignore)')
+    base = db.get_class(CONN, 'PacketReactor')
+    nre = 0
+    meths = []
+    for rc in [base] + sorted(db.subclasses(base), key=lambda c: c.fq):
+        for nm_ in sorted(rc.attrs):
+            fi = db.own_method(rc, nm_)
+            if fi is not None and not isinstance(fi.node, ast.Lambda) and \
+                    fi.kind == 'instance' and nm_ != '__init__':
+                meths.append((rc, fi))
+    for rc, fi in meths:
+        nre += 1
+        hit = None
+        for p_ in S.run(fi, exact_self=rc):
+            if p_.raises and len(p_.outcome) == 3:
+                x = p_.outcome[1]
+                cls_ = x[1] if x[0] == 'call' else (
+                    x[2] if x[0] == 'obj' else None)
+                nm = None
+                if x[0] == 'call' and x[1][0] in ('cls',):
+                    nm = x[1][1].name
+                elif x[0] == 'obj':
+                    nm = x[3].name if x[3] is not None else str(x[2])
+                elif x[0] == 'cls':
+                    nm = x[1].name
+                if nm is not None and nm.split('.')[-1] == 'IgnorePacket':
+                    hit = p_
+                    break
+        if hit is not None:
+            report.violation(
+                R7, 'reaction:ignores:%s' % fi.qualname, fi.path,
+                hit.outcome[2] if isinstance(hit.outcome[2], ast.AST)
+                else fi.node, fi.qualname, '%s raises IgnorePacket [%s]: it '
+                'runs as part of the built-in reaction, so the ordinary '
+                'listeners registered for that packet do not run although '
+                'no listener signalled ignore'
+                % (fi.qualname, hit.cond_text()[:160]))
+        else:
+            report.ok(R7, '%s never raises IgnorePacket' % fi.qualname)
+    report.floor('reactor methods', nre, 10)
     R6 = report.rule('R13.6', 'the decorator form registers like the direct '
                      'call, however often the decorator is applied: one '
                      'register_packet_listener(handler, *types, **options) '
